@@ -1,6 +1,8 @@
 import UgoVerif.Proofs.EvalFix
 import UgoVerif.Proofs.EvalSym
 import UgoVerif.Proofs.EvalLocals
+import UgoVerif.Proofs.EvalMono
+import UgoVerif.Proofs.CompileAppend
 /-
   C10 — evaluating fragments one by one equals evaluating them as one script.
 
@@ -11,13 +13,22 @@ import UgoVerif.Proofs.EvalLocals
   Proved (all inputs, no bounds):
     * `fixOpPop_spec`        what `fixOpPop` does to every NOOP-free decodable stream
     * `locals_roundtrip`     GetLocals ∘ initLocals(NumParams = NumLocals) restores frame 0, boxes included
-    * `session_table_monotone`  the table operations keep earlier bindings, the disabled set, NumLocals
+    * `session_table_monotone`       the table operations keep earlier bindings, the disabled set, NumLocals
+    * `session_table_monotone_full`  a whole `compileSession` — success, error or panic — extends the
+                                     root table and only appends to the constant pool
+                                     (`session_resolve_stable`, `evalSession_monotone`: every later fragment)
+    * `compile_append_monadic`       compiling `f₁ ++ f₂` = compiling `f₁`, then `f₂`, in one compiler state
+    * `compile_append_partial`       for `f₂` jump-free at its top level the bytes of `f₂` behind any prefix
+                                     are the bytes of `f₂` compiled alone: no relocation
+    * `eval_split_partial`           bytecode level: the batch main function is the concatenation of the
+                                     fragments' streams (all fragments but the first jump-free at top level)
     * `first_fragment_eq_batch`
-  Stated, NOT proved (`C10_full`): session ≈ batch for every fragment sequence.  It needs
-  compile-append and VM-relocation lemmas over the (still `partial`) compiler model; it is
-  moreover false of the code for three input classes (open findings C10:variadic-param,
-  C10:codeless-fragment and — with the optimizer on — C10:optimizer-error-timing, reproduced by
-  the stream's oracle on every run).
+  Stated, NOT proved (`C10_full`): session ≈ batch for every fragment sequence.  Missing: the
+  relocating version of `compile_append` for top-level `if`/`for`/`for-in`/`try`/`&&`/`||`/`?:`
+  (jump operands are absolute), and the run level (VM model `Equivariant` for `Spec.Reloc.reloc_sim`
+  and the boundary-state lemma).  `C10_full` is moreover false of the code for three input classes
+  (open findings C10:variadic-param, C10:codeless-fragment and — with the optimizer on —
+  C10:optimizer-error-timing, reproduced by the stream's oracle on every run).
 -/
 namespace UgoVerif.Props.C10
 open UgoVerif UgoVerif.Go UgoVerif.Ast UgoVerif.Compile UgoVerif.VM UgoVerif.Eval
@@ -180,7 +191,7 @@ theorem session_table_monotone (bs : List (String × Nat)) (t : Table) :
     obtain ⟨t', h1, h2, _⟩ := resolve_keeps bs t.disabled m t
     exact ⟨t', h1, by rw [h2]; exact hd⟩
   · intro k r
-    obtain ⟨t', r', h1, h2, _, h4, h5⟩ := updateMaxDefs_head k t r
+    obtain ⟨t', r', h1, h2, _, h4, h5⟩ := Proofs.EvalSym.updateMaxDefs_head k t r
     exact ⟨t', r', h1, h2, h4, h5⟩
 
 /-- non-vacuity: `a` declared by an earlier fragment at local slot 3 -/
@@ -189,16 +200,145 @@ example : resolveIn [("len", 5)] [] "a" [{ store := [("a", { name := "a", index 
   simp [resolveIn, lookupSym]
 example : (resolveIn [("len", 5)] ["len"] "len" [{ disabled := ["len"] }]).1 = none := by decide
 
-/-- the statement for whole compiles (NOT proved: `compileStmts` is a `partial def` today):
-    whatever a fragment compiles to, succeeds or fails, the session's root table is extended
-    except for names the fragment re-declares with `global` -/
-def session_table_monotone_full : Prop :=
-  ∀ (bs : List (String × Nat)) (t : Table) (cs : Array Const) (file : List Stmt),
-    (∀ n sym, lookupSym n t.store = some sym →
-      ∃ sym', lookupSym n (compileSession bs t cs file).table.store = some sym' ∧
-        (sym'.scope = sym.scope ∧ (sym'.index = sym.index ∨ sym.scope = .global))) ∧
-    (compileSession bs t cs file).table.disabled = t.disabled ∧
-    t.maxDefinition ≤ (compileSession bs t cs file).table.maxDefinition
+/-- **session_table_monotone_full**: a whole `compileSession` of a fragment — whatever it compiles
+    to, and also when it fails or panics half-way — extends the session's root table
+    (`Compile.RootExt`):
+    * every earlier binding that is not merely the cache entry of a builtin that was used keeps its
+      scope, constness, constant-literal value and name, and its index unless it is a global (a
+      `global` re-declaration recomputes the index of the name constant) — `Compile.SymKeep`;
+    * the disabled builtins are the same; `maxDefinition` (NumLocals) and `numDefinition` never go
+      down; no global symbol is left waiting for its name constant (`NoPending`, so the theorem
+      applies again to the next fragment);
+    and on success the new constant pool is the old one with constants appended.
+    Hypothesis `NoPending t`: the table holds no global symbol with index −1 (true of a new session
+    and preserved).  Proof: `Proofs/CompileMono*.lean` — every function of the compiler model is
+    monotone (`allMono`, the size induction of C05), `Proofs/EvalMono.lean` for `compileSession`. -/
+theorem session_table_monotone_full (bs : List (String × Nat)) (t : Table) (cs : Array Const) (file : List Stmt)
+    (hp : NoPending t) :
+    RootExt t (compileSession bs t cs file).table ∧
+    (∀ bc, (compileSession bs t cs file).result = .ok bc → IsPre cs bc.constants) :=
+  UgoVerif.Proofs.EvalMono.compileSession_spec bs t cs file hp
+
+/-- a name an earlier fragment declared resolves, after any later compile, to a symbol of the same
+    scope, index (globals excepted), constness and literal value; resolving does not touch the table -/
+theorem session_resolve_stable (bs : List (String × Nat)) (t : Table) (cs : Array Const) (file : List Stmt)
+    (hp : NoPending t) (n : String) (y : Symbol) (hy : lookupSym n t.store = some y) (hb : y.scope ≠ .builtin) :
+    ∃ y', resolveIn bs (compileSession bs t cs file).table.disabled n [(compileSession bs t cs file).table]
+        = (some y', [(compileSession bs t cs file).table]) ∧ SymKeep y y' := by
+  obtain ⟨y', h1, h2⟩ := (session_table_monotone_full bs t cs file hp).1.keep n y hy hb
+  exact ⟨y', resolve_bound bs _ n _ y' h1, h2⟩
+
+/-- the hypothesis holds of a new session, and of a table with a global that has its constant -/
+example (d : List String) : NoPending { disabled := d } := fun p h => by simp at h
+example : NoPending { store := [("g", { name := "g", index := 4, scope := .global })] } := by
+  intro p hp _
+  simp at hp
+  subst hp
+  decide
+
+theorem evalRun_table (F : FloatOps) (fuel : Nat) (s : Session) (file : List Stmt) :
+    (evalRun F fuel s file).session.table = (compileSession s.builtins s.table s.constants file).table ∧
+    (evalRun F fuel s file).session.builtins = s.builtins ∧
+    ((evalRun F fuel s file).session.constants = s.constants ∨
+      ∃ bc, (compileSession s.builtins s.table s.constants file).result = .ok bc ∧
+        (evalRun F fuel s file).session.constants = bc.constants) := by
+  unfold evalRun
+  simp only
+  split
+  · exact ⟨rfl, rfl, .inl rfl⟩
+  · rename_i bc hbc
+    split
+    · exact ⟨rfl, rfl, .inr ⟨bc, hbc, rfl⟩⟩
+    · exact ⟨rfl, rfl, .inr ⟨bc, hbc, rfl⟩⟩
+    · split
+      · exact ⟨rfl, rfl, .inr ⟨bc, hbc, rfl⟩⟩
+      · exact ⟨rfl, rfl, .inr ⟨bc, hbc, rfl⟩⟩
+      · exact ⟨rfl, rfl, .inr ⟨bc, hbc, rfl⟩⟩
+
+/-- **every later fragment**: along a whole session each `Eval.Run` leaves a root table that
+    extends the table the session started with, and a constant pool that extends the first one -/
+theorem evalSession_monotone (F : FloatOps) (fuel : Nat) : ∀ (frags : List (List Stmt)) (s : Session),
+    NoPending s.table → ∀ o ∈ evalSession F fuel s frags,
+      RootExt s.table o.session.table ∧ IsPre s.constants o.session.constants
+  | [], _, _, o, ho => by simp [evalSession] at ho
+  | f :: fs, s, hp, o, ho => by
+    have hstep := session_table_monotone_full s.builtins s.table s.constants f hp
+    obtain ⟨ht, _, hc⟩ := evalRun_table F fuel s f
+    have h1 : RootExt s.table (evalRun F fuel s f).session.table := by rw [ht]; exact hstep.1
+    have h2 : IsPre s.constants (evalRun F fuel s f).session.constants := by
+      rcases hc with hc | ⟨bc, hbc, hc⟩
+      · rw [hc]; exact IsPre.refl _
+      · rw [hc]; exact hstep.2 bc hbc
+    unfold evalSession at ho
+    simp only at ho
+    split at ho
+    · simp at ho
+      rcases ho with rfl | ho
+      · exact ⟨h1, h2⟩
+      · have := evalSession_monotone F fuel fs (evalRun F fuel s f).session (h1.pend hp) o ho
+        exact ⟨h1.trans this.1, h2.trans this.2⟩
+    · simp at ho
+      subst ho
+      exact ⟨h1, h2⟩
+
+/-! ### compile-append -/
+
+/-- **compile_append_partial.**  `f₁` ANY statement list that compiles from `s` to `s₁`; `f₂` jump-free
+    at its top level (`Ast.jfSs`: no `if`, `for`, `for-in`, `try`, `break`/`continue`, `&&`, `||`,
+    `?:` outside function literals — everything else, function literals with any body included).
+    Compiling `f₁ ++ f₂` from `s` and compiling `f₂` alone from `s₁` with an emptied instruction
+    stream (what the next fragment of a session starts from) have the same outcome (`EquiOut`):
+    the same error, or both succeed and the batch state is the fragment's final state with
+    `s₁.insts` in front of its stream: same tables, same constant pool, same bytes appended, no
+    operand relocated.
+    NOT covered: top-level statements that emit jumps — their operands are absolute positions, so
+    the appended bytes differ by a constant shift (`Spec/Reloc`); the bookkeeping of pending
+    placeholder operands (C05's `St`) would have to be redone relationally.
+    Not part of the statement: (1) the `Bytecode()` epilogue (final RETURN) and `fixOpPop`;
+    (2) source-map keys and `Pos` values (the batch AST has shifted positions; bytes, tables and
+    constants do not depend on them — not proved); (3) `Eval`'s fresh `cfuncCache` per fragment
+    (`Model/Eval.maskFns`): a function literal of a later fragment that is identical to a function
+    constant of an earlier one is de-duplicated by the batch compile and not by the session, which
+    changes constant indexes (not behaviour). -/
+theorem compile_append_partial (s s₁ : CState) (f₁ f₂ : List Stmt) (hjf : jfSs f₂ = true)
+    (h₁ : runCM (compileStmts f₁) s = (.ok (), s₁)) :
+    EquiOut s₁.insts (runCM (compileStmts f₂) (freshStream s₁)) (runCM (compileStmts (f₁ ++ f₂)) s) :=
+  Compile.compile_append_partial s s₁ f₁ f₂ hjf h₁
+
+/-- the monadic core, for ALL statement lists: the batch compile is the parts compiled one after
+    the other in one compiler state -/
+theorem compile_append_monadic (f₁ f₂ : List Stmt) :
+    compileStmts (f₁ ++ f₂) = (do compileStmts f₁; compileStmts f₂) := compileStmts_append f₁ f₂
+
+/-- non-vacuity: `x := 1; f := func() { if x { return x } }; f()` is jump-free at its top level
+    (the `if` sits inside a function literal); a top-level `if` is not -/
+example : jfSs [.assign 1 tDefine [.ident 1 "x"] [.int 6 1#64],
+    .assign 9 tDefine [.ident 9 "f"] [.func 14 false [] 21 [.if_ 23 none (.ident 26 "x") 28 [.return_ 30 (some (.ident 37 "x"))] none]],
+    .expr 44 (.call 44 false (.ident 44 "f") [])] = true := by decide
+example : jfS (.if_ 1 none (.ident 4 "x") 6 [] none) = false := by decide
+
+/-- **eval_split_partial** (bytecode level).  Fragments `fs` compiled one after the other by the
+    compiler model — each from an emptied stream and from the tables and constants its predecessor
+    left (`compileChain`) — give the streams `Δ₀, Δ₁, …`.  If every fragment after the statements
+    `done` already compiled is jump-free at its top level, the concatenation compiles from the same
+    start to `s₁.insts ++ Δ₀ ++ Δ₁ ++ …`, with the same final tables and constant pool: the main
+    function of fragment `k` is, byte for byte, the part of the batch main function behind the
+    streams of the earlier fragments (both before the `Bytecode()` epilogue).
+    With `session_table_monotone_full` (slot numbers and constant indexes of earlier names are the
+    same in every later fragment) and `locals_roundtrip` (frame 0 is restored, boxes included) this
+    is the compile half of `session ≈ batch` for these fragments.
+    REMAINING GAP (run level): that the VM model, running `Δ₀ ++ … ++ Δₖ ++ RETURN`, passes after
+    `Δ₀ ++ … ++ Δₖ₋₁` through a state whose frame-0 slots are what `getLocals` stored, and from
+    there behaves like a fresh run of `Δₖ ++ RETURN` on those locals.  For jump-free streams this is
+    the instance `φ = (· + d)` of `Spec.Reloc.reloc_sim` (C11), which asks for `Machine.Equivariant`
+    of the machine — not established for the VM model's 44 opcodes — plus the boundary-state lemma
+    (stack height = NumLocals at a statement boundary, C05 `compile_wf` clause still open). -/
+theorem eval_split_partial (fs : List (List Stmt)) (s : CState) (done : List Stmt) (s₁ : CState)
+    (h₁ : runCM (compileStmts done) s = (.ok (), s₁)) (hjf : ∀ f ∈ fs, jfSs f = true)
+    (ds : List (Array UInt8)) (u : CState) (hc : compileChain s₁ fs = some (ds, u)) :
+    ∃ M, runCM (compileStmts (done ++ fs.flatten)) s =
+      (.ok (), { u with insts := ds.foldl (· ++ ·) s₁.insts, sourceMap := M }) :=
+  eval_split_chain fs s done s₁ h₁ hjf ds u hc
 
 /-! ### the headline -/
 
@@ -292,7 +432,9 @@ theorem first_fragment_eq_batch (F : FloatOps) (fuel : Nat) (s0 : Session) (f : 
     `fixOpPop`; the locals round trip with boxes; the table operations.  Missing for `C10_full`:
     `compile_append` (compiling `f₁ ++ f₂` = compiling `f₁`, then `f₂` from the resulting table and
     constants, modulo the final RETURN and a constant shift of jump targets) and the VM relocation
-    simulation (`Spec/Reloc`), both over the compiler model's `partial def` block. -/
+    simulation (`Spec/Reloc`); since round 2 the compile half is proved for fragments that are jump-free
+    at their top level (`compile_append_partial`, `eval_split_partial`) and the table half for all
+    fragments (`session_table_monotone_full`). -/
 theorem C10_partial :
     (∀ (F : FloatOps) (fuel : Nat) (s0 : Session) (f : List Stmt) (rest : List (List Stmt)),
       (evalSession F fuel s0 (f :: rest))[0]? = some (evalRun F fuel s0 ((f :: rest).take 1).flatten)) ∧
